@@ -37,7 +37,7 @@ var (
 	P3 = addr20("provider3")
 	P4 = addr20("provider4")
 	Pp = sdk.AccAddress(P1[:1])
-	PL = sdk.AccAddress(append(append([]byte{}, P1...), 0x01)) // 21 bytes, P1 is a strict byte-prefix of it
+	PL = sdk.AccAddress(append(append([]byte{}, P1...), 0x01))                                        // 21 bytes, P1 is a strict byte-prefix of it
 	P0 = sdk.AccAddress(append([]byte{0x00, 'p', '0', 0x00, 'z', 0x00}, []byte("______________")...)) // 20 bytes with zero bytes in front and inside
 	W1 = addr20("withdraw1")
 	XX = addr20("stranger")
@@ -208,6 +208,13 @@ type Action struct {
 func (a Action) IsE() bool { return a.Kind == "E" }
 
 func actE() Action { return Action{Name: "E", Kind: "E", Tmpl: -1} }
+
+// actDefineBytes: a definition whose free-text fields hold bytes that are not valid UTF-8 (a protobuf transaction can
+// carry them; the JSON genesis cannot).
+func actDefineBytes(name, author string) Action {
+	return Action{Name: fmt.Sprintf("define(%s,%s,non-utf8 text)", name, author), Kind: "define", Svc: name, Signer: A(author), Tmpl: -1,
+		Msg: st.NewMsgDefineService(name, "d\xff\xfe", []string{"\xff", "\xfe"}, A(author), "a\xff", schemasOK)}
+}
 
 // definitions differ in tags and descriptions from one name to the next (the first has both, the second neither)
 func actDefine(name string, author string) Action {
@@ -425,19 +432,19 @@ func (sc *Scenario) actMod(kind, ctxHex string, consumer sdk.AccAddress, u CtxUp
 
 // Scenario closes the system: initial state, alphabet, bounds.
 type Scenario struct {
-	Name      string
-	Rig       RigConfig
-	Params    ParamSet
-	FlipIDs   bool
+	Name             string
+	Rig              RigConfig
+	Params           ParamSet
+	FlipIDs          bool
 	GovRaisesMinimum bool // the alphabet contains parameter changes that raise the minimum deposit (C14 judges steps, not states)
-	Funds     []Funding
-	Extra     []sdk.AccAddress
-	Setup     []Action // executed by real messages to build the initial state; all must succeed
-	Templates []Template
-	Alpha     func(sc *Scenario, v *View) []Action // enabled actions except E and call (added by the engine)
-	Depth     int
-	MaxBlocks int // bound on E actions (absolute: height < H0+MaxBlocks)
-	MaxMsgs   int // messages per block
+	Funds            []Funding
+	Extra            []sdk.AccAddress
+	Setup            []Action // executed by real messages to build the initial state; all must succeed
+	Templates        []Template
+	Alpha            func(sc *Scenario, v *View) []Action // enabled actions except E and call (added by the engine)
+	Depth            int
+	MaxBlocks        int // bound on E actions (absolute: height < H0+MaxBlocks)
+	MaxMsgs          int // messages per block
 }
 
 // Enabled lists the actions of a state in canonical order: E first (time passing is the default), then
